@@ -159,12 +159,17 @@ def token(v):
     raise TypeError(v)
 
 
-def build_table(defs):
+def mk_index(j, k, nn):
     from sdc11073 import multikey
     cls = {'m': multikey.IndexDefinition, 'u': multikey.UIndexDefinition, 'n': multikey.IndexDefinition1n}
+    return cls[k](lambda o, a=f'a{j}': getattr(o, a), index_none_values=bool(nn))
+
+
+def build_table(defs):
+    from sdc11073 import multikey
     t = multikey.MultiKeyLookup()
     for j, (k, nn) in enumerate(defs):
-        t.add_index(f'i{j}', cls[k](lambda o, a=f'a{j}': getattr(o, a), index_none_values=bool(nn)))
+        t.add_index(f'i{j}', mk_index(j, k, nn))
     return t, list(t._idx_defs.values())
 
 
@@ -187,6 +192,8 @@ def op_line(op):
         return f'set {op[1]} ' + ' '.join(token(dec(v)) for v in op[2])
     if k in ('add', 'rm', 'upd'):
         return f'{k} {op[1]}'
+    if k == 'addidx':
+        return f'addidx {op[1]}{int(op[2])} ' + ' '.join(map(str, op[3]))
     if k == 'clear':
         return 'clear'
     if k in ('addm', 'rmm', 'updm'):
@@ -256,6 +263,18 @@ class Impl:
                     self.pending.discard(op[1])
             elif k == 'rm' and res != 'ok':
                 self.failures.append(('remove-raises', f'remove_object raised {res[4:]}'))
+        elif k == 'addidx':
+            # add_index at run time; the iteration order of the object set is observed and handed to the model
+            j = len(self.idxs)
+            op[3:] = [[self.num[id(o)] for o in t._objects]]
+            idx = mk_index(j, op[1], op[2])
+            before = mk_oracle.table_dump(t)
+            res = self._call(t.add_index, f'i{j}', idx)
+            if res == 'ok':
+                self.idxs.append(idx)
+            elif mk_oracle.table_dump(t) != before:
+                self.failures.append(('rejected-add-index-modifies-table',
+                                      f'add_index raised {res[4:]} and left the table changed: before {_short(before, self.num)} after {_short(mk_oracle.table_dump(t), self.num)}'))
         elif k == 'clear':
             res = self._call(t.clear)
         elif k in ('addm', 'rmm', 'updm'):
@@ -326,7 +345,7 @@ def run_case_impl(case, dump_last_only=False):
     for j, op in enumerate(ops):
         mut = op[0] not in ('get', 'has', 'one')
         quiet = dump_last_only and j < len(ops) - 1 and mut
-        exp.append(impl.execute(op, dump=not quiet))
+        exp.append(impl.execute(op, dump=not quiet))       # (fills in the observed iteration order of an addidx op)
         lines.append(('. ' if quiet else '') + op_line(op))
         if not dump_last_only or j == len(ops) - 1:
             impl.check_scan()
@@ -363,8 +382,11 @@ def gen_case(rng, max_ops=40):
     n = rng.randint(3, max_ops)
     disciplined = rng.random() < 0.6
 
+    nslots = nidx + 2          # attributes for up to two indices added at run time
+
     def attrs():
-        return [rng.choice(vals) for _ in range(nidx)]
+        return [rng.choice(vals) for _ in range(nslots)]
+    nadded = [0]
     for o in range(1, nobj + 1):
         if rng.random() < 0.8:
             ops.append(['set', o, attrs()])
@@ -382,6 +404,9 @@ def gen_case(rng, max_ops=40):
                 ops.append(['upd', o, nl])
         elif r < 0.58:
             ops.append(['upd', o, nl])
+        elif r < 0.595 and nadded[0] < 2:
+            nadded[0] += 1
+            ops.append(['addidx', rng.choice('mun'), rng.randint(0, 1)])
         elif r < 0.60:
             ops.append(['clear'])
         elif r < 0.66:
@@ -396,6 +421,9 @@ def gen_case(rng, max_ops=40):
             ops.append(['has', rng.randrange(nidx), rng.choice(KEYS)])
         else:
             ops.append(['one', rng.randrange(nidx), rng.choice(KEYS), rng.randint(0, 1)])
+    if rng.random() < 0.5:
+        # an index added to the loaded table in the middle of the history (most useful place)
+        ops.insert(rng.randint(len(ops) // 3, len(ops)), ['addidx', rng.choice('mun'), rng.randint(0, 1)])
     return {'defs': defs, 'nobj': nobj, 'ops': ops}
 
 
@@ -646,6 +674,17 @@ def gen_tx(rng, mdib, counter):
     r = rng.random()
     abort = rng.random() < 0.05
     tx = None
+    if rng.random() < 0.05:
+        # an application adds its own index to a loaded table (public API of the table); ordinary transactions follow
+        counter[0] += 1
+        table = rng.choice(['descriptions', 'descriptions', 'states', 'context_states'])
+        # (not DescriptorVersion: the version of a parent is incremented in place when a child is added / removed, without
+        #  update_object - no lookup of the property depends on it, an application index over it is outside the statement)
+        key = rng.choice({'descriptions': ['type_code', 'handle', 'source', 'safety', 'condition_signaled'],
+                          'states': ['descriptor_handle', 'state_version', 'activation'],
+                          'context_states': ['descriptor_handle', 'handle', 'association']}[table])
+        return {'tx': 'add_index', 'table': table, 'name': f'verif_idx_{counter[0]}', 'key': key,
+                'cls': rng.choice(['multi', 'multi', 'unique', 'oneN']), 'index_none': rng.random() < 0.5, 'abort': False}
     if r < 0.15 and metrics:
         tx = {'tx': 'metric', 'handles': some(metrics)}
     elif r < 0.25 and (conds or signals or systems):
@@ -770,6 +809,17 @@ def _add_commit_fault(rng, mdib, steps, conds, signals, metrics, ctxd, counter, 
             steps.append({'do': 'ctx_collision', 'descriptor': rng.choice(others), 'state_handle': sh})
 
 
+KEY_FUNCS = {
+    'type_code': lambda obj: obj.Type.Code,               # AttributeError for descriptors without Type
+    'handle': lambda obj: obj.Handle,
+    'source': lambda obj: obj.Source,
+    'safety': lambda obj: obj.SafetyClassification,
+    'condition_signaled': lambda obj: obj.ConditionSignaled,
+    'descriptor_handle': lambda obj: obj.DescriptorHandle,
+    'state_version': lambda obj: obj.StateVersion,
+    'activation': lambda obj: obj.ActivationState,
+    'association': lambda obj: obj.ContextAssociation,
+}
 CTX_KINDS = ['EnsembleContextDescriptor', 'WorkflowContextDescriptor', 'OperatorContextDescriptor', 'MeansContextDescriptor']
 
 
@@ -784,6 +834,11 @@ def run_tx(mdib, tx):
     STAGE[0] = None
     try:
         kind = tx['tx']
+        if kind == 'add_index':
+            from sdc11073 import multikey
+            cls = {'multi': multikey.IndexDefinition, 'unique': multikey.UIndexDefinition, 'oneN': multikey.IndexDefinition1n}[tx['cls']]
+            getattr(mdib, tx['table']).add_index(tx['name'], cls(KEY_FUNCS[tx['key']], index_none_values=tx['index_none']))
+            return 'ok'
         if kind in ('metric', 'alert', 'component', 'operational', 'rt'):
             with getattr(mdib, {'rt': 'rt_sample_state_transaction'}.get(kind, kind + '_state_transaction'))() as tr:
                 for h in tx['handles']:
